@@ -1059,9 +1059,14 @@ class Variable(CanBehaveLikeAVariable[T]):
         if self._predicate_type_ == PredicateType.SubClassOfPredicate:
             function_output = function_output()
 
-        # Compute truth considering inversion
-        result_truthy = bool(function_output)
-        self._is_false_ = result_truthy if self._invert_ else not result_truthy
+        if self._predicate_type_ or self._invert_:
+            # Compute truth considering inversion
+            result_truthy = bool(function_output)
+            self._is_false_ = result_truthy if self._invert_ else not result_truthy
+        else:
+            # an instance (constructed for this variable or found in the registry) is a value, not a truth value: an
+            # object that happens to be falsy (__bool__, __len__) is a result like any other.
+            self._is_false_ = False
 
         if self._yield_when_false_ or not self._is_false_:
             hv = function_output if isinstance(function_output, HashedValue) else HashedValue(function_output)
